@@ -7,6 +7,7 @@ import (
 	"math"
 	"math/big"
 	"testing"
+	"time"
 
 	"github.com/peterstace/simplefeatures/geom"
 	"pgregory.net/rapid"
@@ -757,10 +758,11 @@ func c07EnvelopeAgrees(env geom.ExtendedEnvelope, dec geom.Geometry, ct int) *h.
 
 func TestC07(t *testing.T) {
 	h.Run(t, h.Prop[C07Case]{
-		ID:          "C07",
-		Rule:        "cases = a valid-by-construction geometry (7 types x 4 coordinate types, empty members, nested collections, zero values) with ordinates k/10^q (q 0..7, |k| < 2^40 and additionally |ordinate x 10^precision| < 2^52 so that float64 resolves the grid) x XY precision -8..7 x optional Z/M precisions 0..7 (plus out-of-range ones) x every subset of {size, bbox, id list (right length / wrong length), closed rings} x optionally a second geometry concatenated; oracles = exact rational rounding (either neighbour accepted within max(2^-20, 2^-51|scaled|) of a tie), an independent varint-level TWKB reader (integers, headers, sizes), nearest-float64 of K/10^p via math/big, envelope of the decoded geometry; non-trivial = (>= 2 members or a header option) and >= 2 positions",
-		Assumptions: []string{"independent TWKB reader (internal/codec/twkb.go) follows the TWKB specification", "math/big", "domain restricted to |ordinate x 10^p| < 2^52: beyond that float64 cannot resolve the grid and the int64 varint cannot hold the value"},
-		Gen:         c07Gen,
-		Check:       c07Check,
+		ID:              "C07",
+		WholeCheckLimit: 300 * time.Second,
+		Rule:            "cases = a valid-by-construction geometry (7 types x 4 coordinate types, empty members, nested collections, zero values) with ordinates k/10^q (q 0..7, |k| < 2^40 and additionally |ordinate x 10^precision| < 2^52 so that float64 resolves the grid) x XY precision -8..7 x optional Z/M precisions 0..7 (plus out-of-range ones) x every subset of {size, bbox, id list (right length / wrong length), closed rings} x optionally a second geometry concatenated; oracles = exact rational rounding (either neighbour accepted within max(2^-20, 2^-51|scaled|) of a tie), an independent varint-level TWKB reader (integers, headers, sizes), nearest-float64 of K/10^p via math/big, envelope of the decoded geometry; non-trivial = (>= 2 members or a header option) and >= 2 positions",
+		Assumptions:     []string{"independent TWKB reader (internal/codec/twkb.go) follows the TWKB specification", "math/big", "domain restricted to |ordinate x 10^p| < 2^52: beyond that float64 cannot resolve the grid and the int64 varint cannot hold the value"},
+		Gen:             c07Gen,
+		Check:           c07Check,
 	})
 }
